@@ -14,7 +14,7 @@ import ChessVerif.Proofs.SearchScoreRoot
 namespace ChessVerif
 namespace Search
 
-variable {σ π : Type}
+variable {σ π : Type} [PsInv σ]
 
 /-- the score C06 demands of a completed search on a final root. -/
 def FinalScore (K : Keys) (b : Board) (v : Score) : Prop :=
@@ -22,24 +22,25 @@ def FinalScore (K : Keys) (b : Board) (v : Score) : Prop :=
 
 theorem abLoop_noplay (c : Comp σ π) (L : Limits) {Good : Board → Prop} (hl : Laws c Good) (child : Child σ)
     (x : ABCtx) (hmv : Move) :
-    ∀ (n : Nat) (l : ABLoop π) (s : St σ), Good s.board → Reach c s.board hmv l.pick l.yielded →
+    ∀ (n : Nat) (l : ABLoop π) (s : St σ), Good s.board → PsInv.ok s.ps → HashOK c s.board hmv →
+      Reach c s.board hmv l.pick l.yielded →
       MoveGen.playable c.keys s.board = [] → l.hasLegal = false →
       let o := abLoop c L child x n l s
       (∀ v, o.1 = .ret v → o.2.aborted = true) ∧ (∀ l', o.1 = .done l' → l'.hasLegal = false) := by
   intro n
   induction n with
-  | zero => intro l s _ _ _ _; exact ⟨fun v _ => rfl, (fun l' h => by cases h)⟩
+  | zero => intro l s _ _ _ _ _ _; exact ⟨fun v _ => rfl, (fun l' h => by cases h)⟩
   | succ n ih =>
-    intro l s hg hreach hnp hleg
+    intro l s hg hok hhash hreach hnp hleg
     simp only [abLoop]
     split
     · exact ⟨(fun v h => by cases h), fun l' h => by cases h; exact hleg⟩
     · next m pk hpick =>
-      have hmem : m ∈ MoveGen.gen s.board := hl.pick_mem _ _ _ _ _ _ _ _ hg hreach hpick
-      have hreach' : Reach c s.board hmv pk (m :: l.yielded) := Reach.next hreach hpick
+      have hmem : m ∈ MoveGen.gen s.board := hl.pick_mem _ _ _ _ _ _ _ _ hg hhash hreach hok hpick
+      have hreach' : Reach c s.board hmv pk (m :: l.yielded) := Reach.next hreach hok hpick
       have hu := hl.undo_make s.board m hg hmem
       split
-      · rw [hu, setBoard_self]; exact ih _ s hg hreach' hnp hleg
+      · rw [hu, setBoard_self]; exact ih _ s hg hok hhash hreach' hnp hleg
       · next hchk =>
         exfalso
         have hchk' : (s.board.makeMove c.keys m).1.inCheck s.board.stm = false := by simpa using hchk
@@ -50,7 +51,8 @@ theorem wrapS16_mate0 : wrapS16 (-Inf + 0) = -Inf := by decide
 
 theorem abMoves_final (c : Comp σ π) (L : Limits) {Good : Board → Prop} (hl : Laws c Good) (child : Child σ)
     (alpha beta : Score) (d : Int) (nt : NodeType) (inCheck improving : Bool) (se : Score)
-    (hm : Move) (s : St σ) (hg : Good s.board) (hnp : MoveGen.playable c.keys s.board = []) :
+    (hm : Move) (s : St σ) (hg : Good s.board) (hok : PsInv.ok s.ps) (hhash : HashOK c s.board hm)
+    (hnp : MoveGen.playable c.keys s.board = []) :
     let o := abMoves c L child alpha beta d 0 nt inCheck improving se hm s
     o.2.aborted = false → o.1 = (if inCheck then -Inf else 0) := by
   simp only [abMoves]
@@ -58,7 +60,7 @@ theorem abMoves_final (c : Comp σ π) (L : Limits) {Good : Board → Prop} (hl 
     (ABCtx.mk alpha beta (if c.iir nt d hm then wrapS8 (d - 1) else d) 0 nt inCheck improving se) hm
     ((MoveGen.gen s.board).length + 1)
     { alpha := alpha, bestMove := 0, hasLegal := false, failLow := true, maxim := -Inf - 1, moveCnt := 0, quietCnt := 0,
-      pick := c.pickInit s.board hm, yielded := [] } s.pushFrame hg Reach.init hnp rfl
+      pick := c.pickInit s.board hm, yielded := [] } s.pushFrame hg hok hhash Reach.init hnp rfl
   simp only at h
   generalize abLoop c L child
     (ABCtx.mk alpha beta (if c.iir nt d hm then wrapS8 (d - 1) else d) 0 nt inCheck improving se)
@@ -80,7 +82,8 @@ theorem abMoves_final (c : Comp σ π) (L : Limits) {Good : Board → Prop} (hl 
 theorem abPrune_final (c : Comp σ π) (L : Limits) {Good : Board → Prop} {TTok : σ → Prop} {μ : Board → Nat}
     (hl : Laws c Good) (sl : ScoreLaws c Good TTok μ) (child : Child σ) (hc : ABSpec c L Good child)
     (alpha beta : Score) (hw : RootWin alpha beta) (d : Int) (hd : 0 ≤ d) (nt : NodeType) (inCheck improving : Bool)
-    (se : Score) (hm : Move) (s : St σ) (hg : Good s.board) (hic : inCheck = s.board.inCheck s.board.stm)
+    (se : Score) (hm : Move) (s : St σ) (hg : Good s.board) (hok : PsInv.ok s.ps) (hhash : HashOK c s.board hm)
+    (hic : inCheck = s.board.inCheck s.board.stm)
     (hnp : MoveGen.playable c.keys s.board = []) :
     let o := abPrune c L child alpha beta d 0 nt inCheck improving se hm s
     o.2.aborted = false → alpha < o.1 → o.1 < beta → o.1 = (if inCheck then -Inf else 0) := by
@@ -95,7 +98,7 @@ theorem abPrune_final (c : Comp σ π) (L : Limits) {Good : Board → Prop} {TTo
     · next hnm =>
       have hic' : inCheck = false := by cases inCheck <;> simp_all
       have hchk : s.board.inCheck s.board.stm = false := by rw [← hic]; exact hic'
-      have hn := nullMove_spec c L hl child hc beta d (Int.le_refl 0) (by decide) se s hg hchk
+      have hn := nullMove_spec c L hl child hc beta d (Int.le_refl 0) (by decide) se s hg hok hchk
       have hge := nullMove_ge c child beta d 0 se s
       simp only at hn
       generalize nullMove c child beta d 0 se s = nm at hn hge ⊢
@@ -103,9 +106,10 @@ theorem abPrune_final (c : Comp σ π) (L : Limits) {Good : Board → Prop} {TTo
       · next v hv => intro _ _ hlt; exact absurd hlt (Int.not_lt.2 (hge v hv))
       · intro hab _ _
         exact abMoves_final c L hl child alpha beta d nt inCheck improving se hm nm.2
-          (by rw [hn.1.board]; exact hg) (by rw [hn.1.board]; exact hnp) hab
+          (by rw [hn.1.board]; exact hg) (hn.1.mono.ps_ok hok) (by rw [hn.1.board]; exact hhash)
+          (by rw [hn.1.board]; exact hnp) hab
     · intro hab _ _
-      exact abMoves_final c L hl child alpha beta d nt inCheck improving se hm s hg hnp hab
+      exact abMoves_final c L hl child alpha beta d nt inCheck improving se hm s hg hok hhash hnp hab
 
 theorem legalLine_nil_of_noplay {K : Keys} {b : Board} {line : List Move} (h : LegalLine K b line)
     (hnp : MoveGen.playable K b = []) : line = [] := by
@@ -117,7 +121,7 @@ theorem legalLine_nil_of_noplay {K : Keys} {b : Board} {line : List Move} (h : L
 theorem alphaBeta_final (c : Comp σ π) (L : Limits) {Good : Board → Prop} {TTok : σ → Prop} {μ : Board → Nat}
     (hl : Laws c Good) (sl : ScoreLaws c Good TTok μ) (fuel : Nat)
     (alpha beta : Score) (hw : RootWin alpha beta) (d : Int) (hd : 1 ≤ d) (s : St σ) (hg : Good s.board)
-    (hfin : Final c.keys s.board) :
+    (hok : PsInv.ok s.ps) (hfin : Final c.keys s.board) :
     let o := alphaBeta c L fuel alpha beta d 0 .pv s
     o.2.aborted = false → alpha < o.1 → o.1 < beta → FinalScore c.keys s.board o.1 ∧ o.2.pv.row 0 = [] := by
   cases fuel with
@@ -158,8 +162,9 @@ theorem alphaBeta_final (c : Comp σ π) (L : Limits) {Good : Board → Prop} {T
             have : (min (0 : Int) 1) = 0 := by decide
             rw [this]; omega
         intro hab hgt hlt
+        have hok2 : PsInv.ok as.2.ps := a1.mono.ps_ok (i1.mono.ps_ok hok)
         have hspec := abBody_spec c L hl (alphaBeta c L fuel) (alphaBeta_spec c L hl fuel) alpha beta d (Int.le_refl 0)
-          (by decide) .pv as.2 (by rw [hb]; exact hg) (by rw [hrow0]; exact LegalLine.nil)
+          (by decide) .pv as.2 (by rw [hb]; exact hg) ⟨hok2, fifty_lt_of_not_draw hnd⟩ (by rw [hrow0]; exact LegalLine.nil)
         have hrow : (abBody c L (alphaBeta c L fuel) alpha beta d 0 .pv as.2).2.pv.row 0 = [] :=
           legalLine_nil_of_noplay hspec.2.2 (by rw [hb]; exact hnp)
         refine ⟨?_, hrow⟩
@@ -176,7 +181,7 @@ theorem alphaBeta_final (c : Comp σ π) (L : Limits) {Good : Board → Prop} {T
             · cases heq
           · intro hab hgt hlt
             exact abPrune_final c L hl sl (alphaBeta c L fuel) (alphaBeta_spec c L hl fuel) alpha beta hw d (by omega) .pv
-              _ _ _ _ as.2 (by rw [hb]; exact hg) rfl (by rw [hb]; exact hnp) hab hgt hlt
+              _ _ _ _ as.2 (by rw [hb]; exact hg) hok2 (hashOK_probe c hok2 as.2.board 0) rfl (by rw [hb]; exact hnp) hab hgt hlt
         rw [hbody, hb]
         unfold FinalScore
         cases hic : s.board.inCheck s.board.stm
